@@ -17,6 +17,7 @@ import (
 	"encoding/json"
 	"fmt"
 	"io"
+	"runtime/debug"
 	"strings"
 	"sync"
 
@@ -49,8 +50,8 @@ type szVariant struct {
 	// how much is read back through this writer's output (parsing 10^4 lines costs about a second):
 	Eager    bool `json:"eager"`    // ReadInto a recording store
 	Real     bool `json:"real"`     // ReadInto a SimpleInMemoryStore
-	NQ       int  `json:"nq"`       // lazy store: the first nq queries of the case (-1 = all)
-	Contains bool `json:"contains"` // lazy store: Contains on three written facts per predicate
+	QSel     []int `json:"qsel"`    // lazy store: indices of the queries to run (null = all of them)
+	Contains bool  `json:"contains"` // lazy store: Contains on written facts (first, middle, last; of a big predicate the last)
 }
 
 type szQuery struct {
@@ -121,8 +122,24 @@ func szKey(c szCol, i int64) int64 {
 	return k
 }
 
-// szConst: the constant of column c for key k; injective in k for a fixed column.
+// szConst: the constant of column c for key k; injective in k for a fixed column. The printed form
+// of a long constant is at most c.Len bytes (escapes make it longer than the payload: shrink and retry).
 func szConst(c szCol, seed uint64, ci int, k int64) (ast.Constant, error) {
+	want := c.Len
+	for try := 0; ; try++ {
+		x, err := szConst1(c, seed, ci, k)
+		if err != nil || want < 64 || try == 6 {
+			return x, err
+		}
+		l := len(x.String())
+		if l <= want {
+			return x, nil
+		}
+		c.Len = c.Len*want/l - 8
+	}
+}
+
+func szConst1(c szCol, seed uint64, ci int, k int64) (ast.Constant, error) {
 	st := seed ^ uint64(ci+1)*0xD6E8FEB86659FD93 ^ uint64(k)*0xA0761D6478BD642F
 	switch c.Kind {
 	case "num":
@@ -339,6 +356,7 @@ func runC19Size(in json.RawMessage) (any, error) {
 	if err := json.Unmarshal(in, &c); err != nil {
 		return nil, err
 	}
+	defer debug.SetGCPercent(debug.SetGCPercent(400)) // the parser allocates a lot per line; collect less often
 	ls := &listStore{facts: map[ast.PredicateSym][]ast.Atom{}}
 	out := szOut{}
 	var all []ast.Atom
@@ -424,7 +442,7 @@ func runC19Size(in json.RawMessage) (any, error) {
 
 	out.Vars = make([]szVarOut, len(c.Variants))
 	var wg sync.WaitGroup
-	sem := make(chan struct{}, 12)
+	sem := make(chan struct{}, 8)
 	for vi, v := range c.Variants {
 		wg.Add(1)
 		go func(vi int, v szVariant) {
@@ -503,10 +521,18 @@ func runC19Size(in json.RawMessage) (any, error) {
 				o.Header = append(o.Header, []any{p.Symbol, p.Arity, lz.FactCount(p)})
 			}
 			o.Est = lz.EstimateFactCount()
-			for qi, qq := range qs {
-				if v.NQ >= 0 && qi >= v.NQ {
-					break
+			sel := v.QSel
+			if sel == nil {
+				for qi := range qs {
+					sel = append(sel, qi)
 				}
+			}
+			for _, qi := range sel {
+				if qi < 0 || qi >= len(qs) {
+					o.LazyErr = fmt.Sprintf("harness: bad query index %d", qi)
+					return
+				}
+				qq := qs[qi]
 				var got []ast.Atom
 				err := lz.GetFacts(qq.atom, func(a ast.Atom) error { got = append(got, a); return nil })
 				cmp := set.compare(got, matches(qq.atom))
@@ -519,7 +545,11 @@ func runC19Size(in json.RawMessage) (any, error) {
 				if len(fs) == 0 || !v.Contains {
 					continue
 				}
-				for _, i := range []int{0, len(fs) / 2, len(fs) - 1} {
+				idx := []int{0, len(fs) / 2, len(fs) - 1}
+				if len(fs) > 1000 {
+					idx = idx[2:]
+				}
+				for _, i := range idx {
 					o.ContainsN++
 					if !lz.Contains(fs[i]) {
 						o.Contains++
